@@ -12,7 +12,9 @@
    overwritten by every auction that ran the strategy.  The harness checks this: the 2nd-4th
    auction on a used strategy instance and blockrelay service is compared with this same model.
    The one legitimate memory -- BuilderBid answering from the cache for a key auctioned before --
-   is [serve_cached] below, within one case (modes MAuction / MQuery).
+   is [serve_cached] below, within one case (modes MAuction / MQuery), and [late_queries]: the
+   BuilderBid calls made for that key after the auction has closed, when the relays may answer
+   differently (the harness runs them on the same service with a second script per relay).
 
    Data: wei values are [N]; scores, offsets, factors and all times (milliseconds since the
    auction was started) are [Z]; [nat] only indexes scripts.  Relays, builders, relay keys,
@@ -318,6 +320,33 @@ Definition served (m : mode) (rs : list relay) (st : state) : list (option N) :=
       | CNothing => [serve_immediate st; serve_immediate st]
       | c => [serve_immediate st; serve_cached c]
       end
+  end.
+
+(* ------------------------------------------------------------------------------------------ *)
+(* BuilderBid calls made LATER for the key of an auction (the beacon node asks after the auction has
+   closed, possibly several times, possibly long after), when the relays may answer differently from
+   what they answered during the auction.  builderbid.go:BuilderBid: a cache entry -- the winning bid
+   or the zero-value dummy -- is answered as it is (the dummy as "no bid"); only when there is no
+   entry at all is an auction run now (immediateBuilderBid -> auctionBlock, which caches its result).
+   [now] is the situation at the instant of the call: the strategy as seen from that instant (the
+   deadline instant is relative to the start of the call) and the relays with what they answer now.
+   Returns the entry afterwards, the answer, and whether relays were asked. *)
+Definition shift (s : strategy) (t : Z) : strategy :=
+  match s with Best T => Best T | Deadline D gap => Deadline (D - t) gap end.
+
+Definition builder_bid (cfgs : bconfs) (c : cached) (now : strategy * list relay) : cached * option N * bool :=
+  match c with
+  | CNothing =>
+      let st := auction_state cfgs (fst now) (snd now) in
+      (auction_cache (snd now) st, serve_immediate st, match snd now with [] => false | _ => true end)
+  | _ => (c, serve_cached c, false)
+  end.
+
+Fixpoint late_queries (cfgs : bconfs) (c : cached) (nows : list (strategy * list relay)) : list (option N * bool) :=
+  match nows with
+  | [] => []
+  | now :: rest =>
+      let '(c', a, asked) := builder_bid cfgs c now in (a, asked) :: late_queries cfgs c' rest
   end.
 
 (* ------------------------------------------------------------------------------------------ *)
